@@ -18,7 +18,7 @@ import (
 func init() {
 	core.Register(&core.Prop{
 		ID: "C01",
-		Rule: "case = one pair of valid polygonal operands in general position (star rings of 3-60 vertices (300 thorough) with 0-3 holes, rotated comb and staircase rings, multi-polygons of 2-4 disjoint members, boxes; configurations: overlapping, B inside A, B inside a hole of A, A inside B, disjoint with overlapping bounding boxes, bounding-box-disjoint on one or both axes; random ring orientation/start/closure) run through all four operations plus the reverse difference for every receiver/argument presentation {Polygon, MultiPolygon, *Bounds}^2 the shapes admit; " +
+		Rule: "case = one pair of valid polygonal operands in general position (operands with more than one ring are additionally presented as ONE polygon holding all rings in random order - a hole may precede its shell, as in the library's own Difference/Union results - half of those laid out as consecutive sub-slices of one backing array; star rings of 3-60 vertices (300 thorough) with 0-3 holes, rotated comb and staircase rings, multi-polygons of 2-4 disjoint members, boxes; configurations: overlapping, B inside A, B inside a hole of A, A inside B, disjoint with overlapping bounding boxes, bounding-box-disjoint on one or both axes; random ring orientation/start/closure) run through all four operations plus the reverse difference for every receiver/argument presentation {Polygon, MultiPolygon, *Bounds}^2 the shapes admit; " +
 			"each result is judged at <= 96 margin points by the harness's exact even-odd membership (A, B and result rings), by the inclusion-exclusion area identities (exact Operand areas, nesting-parity area of the result rings), ring closure and the empty-result rule; " +
 			"an evaluation is one operation result judged; non-trivial = Operand pair whose true intersection and both differences each contain a margin point (distinct by Operand hash)",
 		Assumptions: []string{"operands validated by the harness: simple rings, holes inside shells, no vertex of one Operand within 1e-7*diameter of an edge of the other (general position)", "test points keep 1e-7*diameter clear of every input edge", "Polygonal.Area() of a result is compared only when its rings do not touch each other (geom documents hole detection as undefined there)"},
@@ -31,7 +31,7 @@ func init() {
 		Run: run,
 		Floors: func(t string) map[string]int64 {
 			m := map[string]int64{"cfg.overlapping": 200, "cfg.b_inside_a": 100, "cfg.b_inside_hole_of_a": 100, "cfg.a_inside_b": 100, "cfg.disjoint_bbox_overlap": 100,
-				"cfg.bbox_disjoint_both_axes": 100, "cfg.bbox_disjoint_one_axis": 100, "cfg.box_corners_inside_concave": 100, "points.judged": 100000, "area.identities_checked": 1000, "area.method_compared": 1000, "result.empty_correct": 500, "kind.nested": 50}
+				"cfg.bbox_disjoint_both_axes": 100, "cfg.bbox_disjoint_one_axis": 100, "cfg.box_corners_inside_concave": 100, "points.judged": 100000, "area.identities_checked": 1000, "area.method_compared": 1000, "result.empty_correct": 500, "kind.nested": 50, "presentation.rings_shuffled_into_one_polygon": 300}
 			for _, a := range []string{"Polygon", "MultiPolygon", "*Bounds"} {
 				for _, b := range []string{"Polygon", "MultiPolygon", "*Bounds"} {
 					m["pair."+a+"x"+b] = 40
@@ -164,6 +164,25 @@ func (o *Operand) presentations() []presentation {
 		ps = append(ps, presentation{"*Bounds", o.Box})
 	}
 	return ps
+}
+
+// shuffled is one more presentation of the operand: all rings of all members in ONE polygon in
+// random order (a hole may come before its shell, as in the library's own results of
+// Difference and Union), half of the time laid out as consecutive sub-slices of one backing
+// array. Under the even-odd rule it is the same region.
+func (o *Operand) shuffled(r *gen.R) presentation {
+	var rings []geom.Path
+	for _, pg := range o.Polys {
+		rings = append(rings, pg...)
+	}
+	pg := make(geom.Polygon, len(rings))
+	for i, k := range r.Perm(len(rings)) {
+		pg[i] = rings[k]
+	}
+	if r.Bool() {
+		return presentation{"Polygon", gen.InArena(pg).G.(geom.Polygon)}
+	}
+	return presentation{"Polygon", pg}
 }
 
 func (o *Operand) Contains(p exact.P) bool {
@@ -476,8 +495,17 @@ func run(c *core.Ctx, idx int) {
 	}
 	areaA, areaB := exact.F(a.Area), exact.F(b.Area)
 
-	for _, pa := range a.presentations() {
-		for _, pb := range b.presentations() {
+	pas, pbs := a.presentations(), b.presentations()
+	if len(a.Rings) > 1 {
+		pas = append(pas, a.shuffled(r))
+		c.Count("presentation.rings_shuffled_into_one_polygon")
+	}
+	if len(b.Rings) > 1 {
+		pbs = append(pbs, b.shuffled(r))
+		c.Count("presentation.rings_shuffled_into_one_polygon")
+	}
+	for _, pa := range pas {
+		for _, pb := range pbs {
 			c.Count("pair." + pa.name + "x" + pb.name)
 			var areas [5]float64
 			var areaOK [5]bool
